@@ -5,7 +5,7 @@ from vlib import tlc, make_cfg, tla_set, vh, workdir, write_ndjson, read_ndjson,
 
 PID = "C01"
 API_SITES = ["api-root", "api-deleg"]
-LOAD_SITES = ["root-self", "root-old", "root-new", "timestamp", "snapshot", "targets", "deleg1", "deleg2"]
+LOAD_SITES = ["root-self", "root-old", "root-new", "root-samekeys", "timestamp", "snapshot", "targets", "deleg1", "deleg2"]
 SIG_CLASSES = ("Verify:", "VerifyTrustedMetadata")
 
 
